@@ -115,7 +115,7 @@ Definition unchanged_but_tx (st st' : dstate) : Prop :=
 
 Definition end_block_line (st : dstate) (c' : chain) : bytes :=
   let c := d_chain st in
-  join_toks (b "B" :: coins_tok (spendable_coins (c_bank c) (d_now st) Generated.GenApp.burn_address)
+  join_toks (b "B" :: coins_tok (sort_coins (spendable_coins (c_bank c) (d_now st) Generated.GenApp.burn_address))
                :: map (fun d => print_z (Z.of_N (supply_of (c_bank c') d) - Z.of_N (supply_of (c_bank c) d))) (d_denoms st)).
 
 Definition height_line (h : N) : bytes := join_toks [b "H"; print_dec h].
